@@ -129,6 +129,8 @@ class Tr:
         self.cap_map = {}       # inside a lambda: decl id -> C expr of the capture cell
         self.labels = set()
         self.instances = []
+        self.file = (node.get('loc') or {}).get('file')
+        self._src = None
 
     # ------------------------------------------------------------------ helpers
     def loc(self, n):
@@ -138,6 +140,26 @@ class Tr:
 
     def bad(self, what, n):
         raise Unsupported('%s: %s (%s, %s)' % (self.cname, what, n.get('kind'), self.loc(n)))
+
+    def src_text(self, n):
+        """source text of expression node n (None if it comes from a macro or the file is unknown)"""
+        r = n.get('range', {})
+        b, e = r.get('begin', {}), r.get('end', {})
+        if 'offset' not in b or 'offset' not in e or self.file is None:
+            return None
+        if self._src is None:
+            try:
+                self._src = open(self.file, 'rb').read()
+            except OSError:
+                return None
+        return self._src[b['offset']:e['offset'] + e.get('tokLen', 0)].decode('utf-8', 'replace')
+
+    def targs_hint(self, n):
+        t = self.src_text(n)
+        if t is None:
+            return None
+        m = re.search(r'<\s*([^<>]*)\s*>\s*$', t.strip())
+        return m.group(1).strip() if m else ''
 
     def tmp(self, ctype, expr):
         if self.cond_depth > 0:
@@ -300,7 +322,7 @@ class Tr:
             return 'E_%s_%s' % (re.sub(r'[^A-Za-z0-9]+', '_', et), name)
         if kind in ('FunctionDecl', 'CXXMethodDecl'):
             sig = rd['type']['qualType']
-            c = self.ctx.resolve_free(name, sig)
+            c = self.ctx.resolve_free(name, sig, self.targs_hint(n))
             if c is None:
                 self.bad('call of function outside registry/model: %s : %s' % (name, sig), n)
             self.ctx.callees.add(c)
@@ -502,7 +524,7 @@ class Tr:
             return r
         # registry method
         nargs = len(argn)
-        res = self.ctx.resolve_method(ok, name, nargs)
+        res = self.ctx.resolve_method(ok, name, nargs, self.targs_hint(me))
         if res is None:
             self.bad('member call outside registry/model: %s::%s/%d' % (oq2, name, nargs), n)
         cname, sig = res
@@ -575,6 +597,7 @@ class Tr:
         self.lambda_n += 1
         fname = '%s__lambda%d' % (self.cname, self.lambda_n)
         sub = Tr(self.ctx, fname, meth, {})
+        sub.file = self.file
         sub.locals = {}
         sub.is_method = False
         # captures: walk the body for DeclRefExpr to outer locals / this
